@@ -17,7 +17,7 @@ theorem cb_stepOk {sys : Sys} {comp snap : List Nat} {s : St} (c : CompCtx sys c
   split
   · rename_i h
     obtain ⟨q, hq, hqi⟩ := (any_inter_iff sys comp).1 h
-    exact slow_stepOk c hq hqi _ (by unfold slowFuel; omega)
+    exact slow_stepOk c hq hqi _ (Nat.lt_succ_self _)
   · exact simple_stepOk c
 
 theorem cb_good {sys : Sys} {comp snap : List Nat} {s : St} (c : CompCtx sys comp snap s)
